@@ -88,6 +88,11 @@ impl Next<f64> for EfficiencyRatio {
             previous = *n;
         }
 
+        if volatility == 0.0 {
+            // no movement at all inside the window
+            return 1.0;
+        }
+
         (first - input).abs() / volatility
     }
 }
